@@ -17,7 +17,7 @@ use std::ops::Range;
 pub static INFO: PropInfo = PropInfo {
     id: "C16",
     level: "fault_enumeration",
-    rule: "enumerated sub-spaces (exhaustive: true refers to these only): (E1) all 4096 subsets of a 12-element universe of packet sequence numbers, in 3 numberings, as ack sets: codec round trip of the range list, and fed through process_packet (ascending and one seeded shuffled order) to a fresh endpoint whose emitted Ack packet, decoded, must equal the recorded set (hook) and the fed set; (E2) every netcode packet kind x sequence-length class 0..8 bytes (sequence 0, 1, 2^8k-1, 2^8k) x payload length {0,1,1299,1300}: decode(encode(v)) = (sequence, v) with the crate's codec. Sampled: (S1) random renet packets of every kind with every field on varint boundaries (63/64, 16383/16384, 2^30, 2^62-1), 0..n messages of 0..1200 bytes, sorted non-adjacent range lists of 1..64 ranges incl. single-element ranges and gaps of exactly one: decode(encode(v)) == v; (S2) random and mutated byte strings: if decode(b) = v then decode(encode(v)) = v; (S3) sparse sequence sets of up to 90 ranges fed to an endpoint: emitted Ack == recorded set, subset of the fed set, <= 64 ranges, equal to the fed set whenever it never needed more than 64 ranges; beyond 64 ranges it must contain the highest sequence fed and the one fed last (unless below everything recorded) and, for ascending or descending feeds, equal exactly the 64 highest ranges of the fed set; (S4) connect tokens with 1..32 IPv4/IPv6 addresses through write/read and seal/open (built through the hook codec, and by ConnectToken::generate with IPv6 scope ids / flow labels set on some addresses), and mutated token bytes through read -> write -> read. Non-trivial = a value with at least one multi-byte varint / non-empty body / >= 2 ranges / >= 2 addresses; distinct = distinct value fingerprints.",
+    rule: "enumerated sub-spaces (exhaustive: true refers to these only): (E1) all 4096 subsets of a 12-element universe of packet sequence numbers, in 3 numberings, as ack sets: codec round trip of the range list, and fed through process_packet (ascending and one seeded shuffled order) to a fresh endpoint whose emitted Ack packet, decoded, must equal the recorded set (hook) and the fed set; and, the reading side, handed as an Ack to an endpoint that has packets base..base+11 in flight (one reliable message each), after which exactly the messages of the packets in the subset must be released (hook); (E2) every netcode packet kind x sequence-length class 0..8 bytes (sequence 0, 1, 2^8k-1, 2^8k) x payload length {0,1,1299,1300}: decode(encode(v)) = (sequence, v) with the crate's codec. Sampled: (S1) random renet packets of every kind with every field on varint boundaries (63/64, 16383/16384, 2^30, 2^62-1), 0..n messages of 0..1200 bytes, sorted non-adjacent range lists of 1..64 ranges incl. single-element ranges and gaps of exactly one: decode(encode(v)) == v; (S2) random and mutated byte strings: if decode(b) = v then decode(encode(v)) = v; (S3) sparse sequence sets of up to 90 ranges fed to an endpoint: emitted Ack == recorded set, subset of the fed set, <= 64 ranges, equal to the fed set whenever it never needed more than 64 ranges; beyond 64 ranges it must contain the highest sequence fed and the one fed last (unless below everything recorded) and, for ascending or descending feeds, equal exactly the 64 highest ranges of the fed set; (S4) connect tokens with 1..32 IPv4/IPv6 addresses through write/read and seal/open (built through the hook codec, and by ConnectToken::generate with IPv6 scope ids / flow labels set on some addresses), and mutated token bytes through read -> write -> read. Non-trivial = a value with at least one multi-byte varint / non-empty body / >= 2 ranges / >= 2 addresses; distinct = distinct value fingerprints.",
     assumptions: &["values 'the library can build' are generated within the limits the library itself enforces when sending (message <= 1200 bytes in a small packet, slice payload 1..1200, slice index < slice count <= 10^6, <= 64 ack ranges, packet <= 1300 bytes)"],
     gates: &[
         ("ack_subsets_enumerated", 4096),
@@ -25,6 +25,7 @@ pub static INFO: PropInfo = PropInfo {
         ("renet_values_roundtripped", 20_000),
         ("renet_bytes_decoded_ok", 2000),
         ("ack_feed_cases", 500),
+        ("ack_reading_cases", 4096),
         ("tokens_roundtripped", 200),
         ("lib_tokens_with_scoped_ipv6", 50),
         ("token_bytes_decoded_ok", 200),
@@ -203,6 +204,47 @@ fn feed_and_check(ctx: &Ctx, out: &mut Outcome, order: &[u64], run_seed: u64, mo
     }
 }
 
+/// What an acknowledgement packet denotes is also what its reader takes it to denote: a sender with packets
+/// base..base+11 in flight (message i travelled in packet base+i) that processes Ack(set) must release exactly the
+/// messages whose packet is in the set.
+fn ack_reading(ctx: &Ctx, out: &mut Outcome, base: u64, set: &BTreeSet<u64>) {
+    let mut c = RenetClient::new(ConnectionConfig::default());
+    c.set_connected();
+    c.verif_seed_counters(base, 0);
+    let ch = 2u8; // default configuration: channel 2 is ReliableOrdered
+    let mut seqs: Vec<u64> = Vec::new();
+    for i in 0..12u8 {
+        c.send_message(ch, Bytes::from(vec![i; 5]));
+        for p in c.get_packets_to_send() {
+            if let Ok(Packet::SmallReliable { sequence, .. }) = dec(&p) {
+                seqs.push(sequence);
+            }
+        }
+    }
+    if seqs != (0..12).map(|i| base + i).collect::<Vec<u64>>() {
+        out.count("ack_reading_void");
+        return;
+    }
+    let ack = Packet::Ack { sequence: 0, ack_ranges: ranges_of(set) };
+    let Some(b) = enc(&ack) else { return };
+    c.process_packet(&b);
+    out.count("ack_reading_cases");
+    let unacked: BTreeSet<u64> = c.verif_unacked(ch).unwrap_or_default().into_iter().collect();
+    let expected: BTreeSet<u64> = (0..12u64).filter(|i| !set.contains(&(base + i))).collect();
+    if unacked != expected || c.is_disconnected() {
+        viol(
+            ctx,
+            out,
+            "C16/ack-packet-read-as-another-set",
+            "an acknowledgement packet denotes exactly the set of sequence numbers recorded as received",
+            format!("packets {}..{} in flight, Ack denoting {:?} processed: messages still unacknowledged {:?}, expected {:?}", base, base + 11, ranges_of(set), unacked, expected),
+            json!({"base": base, "set": format!("{:?}", set)}),
+            0,
+            "enumerate",
+        );
+    }
+}
+
 fn enumerate_ack_subsets(ctx: &Ctx, out: &mut Outcome) {
     let mut complete = true;
     let mut r = Rng::new(ctx.shard_seed(0xACC));
@@ -228,6 +270,9 @@ fn enumerate_ack_subsets(ctx: &Ctx, out: &mut Outcome) {
                     viol(ctx, out, "C16/renet-roundtrip/ack", "decode(encode(v)) == v", format!("ack ranges {:?} -> {:?}", ranges, other), json!({"ranges": format!("{:?}", ranges)}), 0, "enumerate");
                 }
             }
+            // the reading side: an endpoint that sent 12 packets (base .. base+11, one reliable message each) and is
+            // handed this Ack must regard exactly the packets of the set as acknowledged
+            ack_reading(ctx, out, base, &set);
             // endpoint
             let asc: Vec<u64> = set.iter().copied().collect();
             feed_and_check(ctx, out, &asc, 0, "enumerate");
